@@ -59,7 +59,10 @@ func c10platformYAML(cs c10case, ps facts.AuthPatSet) string {
 	b.WriteString("---\nplatform-type: 'verif_c10'\ndefault:\n  driver-type: 'network'\n  privilege-levels:\n    exec:\n      name: 'exec'\n")
 	fmt.Fprintf(&b, "      pattern: '%s'\n", prompt)
 	b.WriteString("      previous-priv:\n      deescalate:\n      escalate:\n      escalate-auth: false\n      escalate-prompt:\n")
-	b.WriteString("  default-desired-privilege-level: 'exec'\n  network-on-open:\n    - operation: 'acquire-priv'\n")
+	b.WriteString("  default-desired-privilege-level: 'exec'\n")
+	if cs.firstOp != "D" { // with an on-open step the first read after the login happens inside Open
+		b.WriteString("  network-on-open:\n    - operation: 'acquire-priv'\n")
+	}
 	if cs.viaPlatform {
 		b.WriteString("  options:\n")
 		for _, kv := range [][2]string{{"username-pattern", ps.User}, {"password-pattern", ps.Pass}, {"passphrase-pattern", ps.Phrase}} {
@@ -122,6 +125,60 @@ func c10hello(caps []string, session uint64) string {
 	return b.String()
 }
 
+// c10bigBanner: `target` bytes of harmless lines (no prompt look-alikes), each ending in nl.
+func c10bigBanner(r *vlib.Rng, target int, nl string) string {
+	words := []string{"interface", "GigabitEthernet0/1", "is", "up", "line", "protocol", "notice", "maintenance", "window", "sunday", "0200-0400", "contact", "noc", "ext", "4711", "unauthorized", "access", "prohibited"}
+	var b strings.Builder
+	for b.Len() < target {
+		var l strings.Builder
+		for l.Len() < 40+r.Intn(30) {
+			l.WriteString(r.Pick(words))
+			l.WriteString(" ")
+		}
+		line := l.String() + "." + nl
+		if b.Len()+len(line) > target {
+			pad := target - b.Len() - len(nl)
+			if pad < 0 {
+				return b.String()[:target-len(nl)] + nl
+			}
+			line = strings.Repeat("x", pad) + nl
+		}
+		b.WriteString(line)
+	}
+	return b.String()
+}
+
+// c10postLoginSize draws the size class of what the device prints between the last credential and
+// the shell prompt: "" (generator's usual motd), or an exact / large byte count.
+func c10postLoginSize(r *vlib.Rng) int {
+	// the Lean regex engine is quadratic in the buffer: the quick tier keeps large texts rare
+	n := 60
+	if c10xThorough {
+		n = 16
+	}
+	switch r.Intn(n) {
+	case 0:
+		return 999
+	case 1:
+		return 1000
+	case 2:
+		return 1001
+	case 3:
+		return r.Range(1002, 1600)
+	case 4:
+		if c10xThorough {
+			return r.Range(3000, 10000)
+		}
+		if r.Chance(1, 2) {
+			return r.Range(3000, 4000)
+		}
+	}
+	return 0
+}
+
+// c10xThorough: set once per run from the tier (replay lines carry it).
+var c10xThorough bool
+
 // genC10x draws one extended scenario.
 func genC10x(seed uint64) c10case {
 	r := vlib.NewRng(seed ^ 0xc10e)
@@ -154,7 +211,7 @@ func genC10x(seed uint64) c10case {
 		cs.rawSecret = true
 		cs.pass = "ab\ncd"
 	}
-	cs.firstOp = r.Pick([]string{"A", "B", "C", "C"})
+	cs.firstOp = r.Pick([]string{"A", "B", "C", "C", "D", "D"})
 	cs.variantB = cs.firstOp == "B"
 	pick := func(custom []string, def ...string) string {
 		if len(custom) > 0 {
@@ -173,6 +230,28 @@ func genC10x(seed uint64) c10case {
 	motd := func() string {
 		return r.Pick([]string{"", "", "Welcome to the lab router" + nl, "Authorized users only!" + nl + "You have new mail." + nl})
 	}
+	big := c10postLoginSize(r)
+	bigText := ""
+	if big > 0 {
+		// keep the number of read boundaries (each costs the model several regex runs on the whole
+		// buffer) moderate: large texts come in large reads
+		bigText = c10bigBanner(r, big-len(nl), nl)
+		cs.bigBanner = big
+		if cs.segClass == 1 {
+			cs.segClass = 2
+		}
+		cs.segK = r.Range(48, 400)
+		if big > 1001 {
+			cs.segK = r.Range(600, 4000)
+			cs.readSize = 65535
+		}
+		if cs.readSize < 64 {
+			cs.readSize = 8192
+		}
+		if r.Chance(1, 3) {
+			cs.depth = r.Range(40, 300)
+		}
+	}
 	var shell sim.LoginStage
 	if cs.entry == "netconf" {
 		cs.ncSession = uint64(r.Range(1, 99999))
@@ -183,9 +262,12 @@ func genC10x(seed uint64) c10case {
 		if r.Chance(1, 2) {
 			cs.ncCaps = append(cs.ncCaps, "urn:ietf:params:netconf:capability:candidate:1.0")
 		}
+		for big > 0 && len(strings.Join(cs.ncCaps, "")) < big {
+			cs.ncCaps = append(cs.ncCaps, fmt.Sprintf("urn:example:params:xml:ns:yang:module-%d?revision=2020-01-%02d", len(cs.ncCaps), 1+len(cs.ncCaps)%28))
+		}
 		shell = sim.LoginStage{Kind: sim.LoginShell, Text: motd() + c10hello(cs.ncCaps, cs.ncSession)}
 	} else {
-		shell = sim.LoginStage{Kind: sim.LoginShell, Text: motd() + cs.prompt}
+		shell = sim.LoginStage{Kind: sim.LoginShell, Text: motd() + bigText + cs.prompt}
 	}
 	rej := []int{0, 0, 0, 1, 1, 2, 3}[r.Intn(7)]
 	reject := func() string { return r.Pick([]string{"Login incorrect", "% Authentication failed", "Access denied"}) + nl + nl }
